@@ -3,7 +3,8 @@ package main
 // Maps: read-only model.  A map value is an opaque handle m; len(m) is the
 // uninterpreted maplen(m) >= 0 (maplen(nil) = 0); ranging over a map yields
 // maplen(m) pairs of arbitrary (well-formed) keys and values in an arbitrary
-// order.  Lookups, updates, deletes and make(map) are unsupported constructs.
+// order.  make(map) yields a fresh empty handle (with an alloc-bound obligation on a
+// reservation); lookups, updates and deletes are unsupported constructs.
 
 import (
 	"go/types"
@@ -17,9 +18,24 @@ func (fr *Frame) mapLookup(x *ssa.Lookup, st *State, rch Term) Val {
 	return Val{}
 }
 
-func (fr *Frame) makeMap(x *ssa.MakeMap, st *State) Val {
-	unsup("make(map)")
-	return Val{}
+// allocHintBound: the largest number of entries a make(map, n) may reserve.
+// C14 ("an announced container length is a hint, not a licence to allocate"):
+// a reservation taken from the wire must be bounded by a constant.
+const allocHintBound = "65536"
+
+// make(map[K]V) / make(map[K]V, n): a fresh, empty, non-nil handle.  Only the
+// creation is modelled (lookups and updates stay unsupported); a reservation n
+// carries the obligation `alloc-bound`: 0 <= n <= allocHintBound (a negative
+// hint panics at run time).
+func (fr *Frame) makeMap(x *ssa.MakeMap, st *State, rch Term) Val {
+	vc := fr.vc
+	if x.Reserve != nil {
+		n := fr.value(x.Reserve).t()
+		fr.safety("alloc-bound", x, rch, and(sx("<=", "0", n), sx("<=", n, allocHintBound)))
+	}
+	h := vc.fresh("mkmap", "Int")
+	vc.assume(and(sx("<", "0", h), eq(sx("maplen", h), "0")))
+	return Val{T: x.Type(), C: []Term{h}}
 }
 
 func (fr *Frame) mapUpdate(x *ssa.MapUpdate, st *State, rch Term) {
